@@ -205,6 +205,15 @@ func body(c *hk.Ctx) {
 		}
 	}
 	s.mesos.Latency = func(kind string) time.Duration { return time.Duration(c.F(4, "latency-"+kind)) * 3 * time.Millisecond }
+	if c.F(3, "slow-message-calls") == 2 {
+		// MESSAGE calls are network bound: a quick executor's answer can be back before the call returns
+		s.mesos.CallLatency = func(typ string) time.Duration {
+			if typ == "MESSAGE" {
+				return []time.Duration{0, 30 * time.Millisecond, 80 * time.Millisecond}[c.F(3, "message-call-ms")]
+			}
+			return 0
+		}
+	}
 
 	// ---- one workflow ----
 	wf := &wfSpec{Name: "wfa", DeployTimeout: 10 + c.W(3, "deploy-timeout")*10}
